@@ -555,4 +555,25 @@ kind is never a key of another kind. -/
 
 theorem gov_key_spaces_disjoint : Sekai.Keys.disjoint Sekai.Gen.Keys.stores "gov" = true := by decide +kernel
 
+/-! ### the genesis tool -/
+
+/-- **`gentx-claim` hands the chain a state the identity theorems start from**: if no record id of the input file exceeds
+its counter, the same holds for the output, and the id given to the validator's moniker record was nobody's -/
+theorem gentxClaim_keeps_recBounded (S : State) (addr : Nat) (m : String) (d : Nat) (h : RecBounded S) :
+    RecBounded (gentxClaim S addr m d) ∧ ∀ r ∈ S.records, r.id ≠ S.lastRecordId + 1 := by
+  refine ⟨?_, ?_⟩
+  · intro r hr
+    simp only [gentxClaim, List.mem_append, List.mem_singleton] at hr ⊢
+    rcases hr with hr | rfl
+    · exact Nat.le_succ_of_le (h r hr)
+    · exact Nat.le_refl _
+  · intro r hr he
+    have := h r hr
+    omega
+
+/-- a file with a gap (only id 2 left, counter 2): moniker record 3, counter 3 - recomputing the counter from the NUMBER of
+records (2) would hand the next registration the id 3 again -/
+example : (gentxClaim { records := [⟨2, 9, "username", "a", 0, []⟩], lastRecordId := 2 } 7 "v" 0).lastRecordId = 3 ∧
+    ((gentxClaim { records := [⟨2, 9, "username", "a", 0, []⟩], lastRecordId := 2 } 7 "v" 0).records.map (·.id)) = [2, 3] := by decide
+
 end Sekai.Props.C16
